@@ -89,8 +89,23 @@ def gen_renames(rng, spec):
     if rng.random() < 0.5:
         out.append(['construct', 0])
         out.append(['fxparams', len(order.get('effects', [])), [rng.choice(['sampler', 'surface', 'both']), '-rc']])
+    # sub-objects REPLACED before the first save: bump map, Map in a shader slot, material.effect, instance targets
+    for i, oid in enumerate(order.get('effects', [])):
+        r = rng.random()
+        if r < 0.25:
+            out.append(['replace-bump', i])
+        elif r < 0.4:
+            out.append(['replace-map', i])
+    for i, oid in enumerate(order.get('materials', [])):
+        if rng.random() < 0.2:
+            out.append(['replace-effect', i])
     if rng.random() < 0.3:
+        out.append(['replace-target'])
+    if rng.random() < 0.5:
         out.append(['save-first'])
+    if rng.random() < 0.6:
+        # save -> rename again -> save (geometries a controller refers to keep their id: controllers have no writer)
+        out.append(['second-round', sorted(ctrl_geo)])
     return out
 
 
